@@ -202,8 +202,10 @@ impl Subject for SFob {
         self.0.verif_seed_positions(s)
     }
     fn extend(&mut self, ids: &[u32]) -> Option<()> {
+        // an iterator with an inexact size hint (lower bound 0): just as legal as a Vec, less forgiving
         let v: Vec<F> = ids.iter().map(|&i| F::new(i)).collect();
-        in_crate(|| self.0.extend(v));
+        let it = v.into_iter().filter(|_| true);
+        in_crate(|| self.0.extend(it));
         Some(())
     }
     relocate!();
@@ -236,8 +238,10 @@ impl Subject for SFo {
         self.0.verif_seed_positions(s)
     }
     fn extend(&mut self, ids: &[u32]) -> Option<()> {
+        // an iterator with an inexact size hint (lower bound 0): just as legal as a Vec, less forgiving
         let v: Vec<F> = ids.iter().map(|&i| F::new(i)).collect();
-        in_crate(|| self.0.extend(v));
+        let it = v.into_iter().filter(|_| true);
+        in_crate(|| self.0.extend(it));
         Some(())
     }
     relocate!();
